@@ -211,6 +211,15 @@ func c14GenTrials(c *core.Ctx) []c14Trial {
 	for i := 0; i < nm; i++ {
 		trials = append(trials, c14GenMoving(c.Rand("c14-moving", i), n+i))
 	}
+	// cleanup-between-asks scenario (c14gc.go) and configured-through-a-file scenario (c14cfg.go): own ids, own streams
+	ng := c.N(120, 2500)
+	for i := 0; i < ng; i++ {
+		trials = append(trials, c14GenGC(c.Rand("c14-gc", i), n+nm+i))
+	}
+	nc := c.N(80, 1500)
+	for i := 0; i < nc; i++ {
+		trials = append(trials, c14GenCfg(c.Rand("c14-cfg", i), n+nm+ng+i))
+	}
 	return trials
 }
 
@@ -559,9 +568,50 @@ func runC14(c *core.Ctx) int {
 				run.Distinct("moving_end_schedule", "waves")
 			}
 		}
-		run.Max(fmt.Sprintf("max_inflight_at_concurrency_%02d", t.Concurrency), int64(s.MaxInflight))
-		if s.Saturated {
-			run.Count(fmt.Sprintf("trials_inflight_reached_concurrency_%02d", t.Concurrency), 1)
+		if g := s.GC; g != nil {
+			run.Count("gc_cleanup_passes_between_waves", int64(g.Passes))
+			run.Count("gc_cleanup_passes_while_callers_were_out", int64(g.PassesDuring))
+			run.Count("gc_questions_answered_then_cleaned_then_asked_again", int64(g.QuestionsReask))
+			run.Count("gc_calls_after_cleanup_that_must_be_served_from_cache", int64(g.Reasks))
+			run.Count("gc_calls_after_cleanup_answer_never_read_back_before_it", int64(g.ReasksNoHit))
+			run.Count("gc_calls_after_cleanup_answer_read_back_once_before_it", int64(g.ReasksOneHit))
+			run.Count("gc_calls_after_cleanup_answer_read_back_2plus_before_it", int64(g.ReasksManyHits))
+			run.Count("gc_questions_failed_then_cleaned_then_asked_again", int64(g.FailedThenAsked))
+			run.Count("gc_requests_entering_after_first_cleanup_pass", int64(g.RequestsAfter))
+			for _, k := range g.KindsNoHit {
+				run.Distinct("gc_kinds_asked_again_after_cleanup_without_earlier_hit", k)
+			}
+			for _, k := range g.PassesBetween {
+				run.Distinct("gc_complete_passes_between_answer_and_later_ask", k)
+			}
+			for _, k := range g.RoundsPerQ {
+				run.Distinct("gc_waves_in_which_one_question_was_asked", k)
+			}
+			if t.GCDuring {
+				run.Count("gc_trials_with_concurrent_cleanup", 1)
+			}
+		}
+		if t.Mode == "cfg" {
+			cc := fmt.Sprintf("%02d", t.Concurrency)
+			if t.ConcAbsent {
+				cc = "absent"
+			}
+			run.Count("cfg_trials_source_"+t.Source, 1)
+			run.Distinct("cfg_source_x_concurrency", t.Source+"/"+cc)
+			run.Distinct("cfg_source_x_upstreams", fmt.Sprintf("%s/%d", t.Source, t.Servers))
+			run.Max("cfg_max_inflight_with_concurrency_"+cc, int64(s.MaxInflight))
+			if s.Saturated && !t.ConcAbsent {
+				run.Count("cfg_trials_inflight_reached_configured_concurrency", 1)
+				run.Count("cfg_trials_inflight_reached_configured_concurrency_"+c14SourceKind(t.Source), 1)
+			}
+			if t.ConcAbsent {
+				run.Count("cfg_trials_concurrency_absent_not_judged", 1)
+			}
+		} else {
+			run.Max(fmt.Sprintf("max_inflight_at_concurrency_%02d", t.Concurrency), int64(s.MaxInflight))
+			if s.Saturated {
+				run.Count(fmt.Sprintf("trials_inflight_reached_concurrency_%02d", t.Concurrency), 1)
+			}
 		}
 		for k, n := range s.Porcupine {
 			porc[k] += int64(n)
@@ -580,8 +630,21 @@ func runC14(c *core.Ctx) int {
 		default:
 			hist["00-01"]++
 		}
-		if s.MaxContention >= 2 {
+		switch {
+		case t.Mode == "gc":
+			// non-trivial: an answered question was asked again after a complete cleanup pass
+			if s.GC != nil && s.GC.QuestionsReask > 0 {
+				run.Nontrivial(o.Hash)
+			}
+		case t.Mode == "cfg":
+			// non-trivial: the configured bound was reached (and is judged)
+			if s.Saturated && !t.ConcAbsent {
+				run.Nontrivial(o.Hash)
+			}
+		case s.MaxContention >= 2:
 			run.Nontrivial(o.Hash)
+		}
+		if s.MaxContention >= 2 {
 			run.Count("contended_questions", int64(s.ContendedKeys))
 		}
 		for _, q := range t.Questions {
@@ -609,9 +672,11 @@ func runC14(c *core.Ctx) int {
 	run.Assume("range questions use fixed absolute times (a RangeQueryTimes whose String() is RelativeRange's), so no slice boundary depends on the wall clock; in moving trials every caller has its own fixed logical now, as RelativeRange callers arriving at different moments would")
 	run.Assume("moving trials: two successful slice requests are the same question iff same expression, step and start and their ends are the same number of whole steps after the start AND round (time.Time.Round) to the same multiple of the step; only then a second request is a violation")
 	run.Assume("cache lifetime is exercised only as 'not re-requested within a group that lives well under the 2-minute sweeper'")
+	run.Assume("gc trials: cleanup passes are run through the exported FailoverGroup.CleanCache (the pass the 2-minute cleaner runs); a second request for an answered key is judged only if, by the recorded stamps, it entered the server less than 60s after the first answer left it (below every cache lifetime: 5m instant, 10m flags/metadata, >=10m range slices, 1h config as passed, 1h without a read); otherwise the trial is set aside as inconclusive")
+	run.Assume("cfg trials: the configured concurrency is the number written in the configuration file the harness generated; trials whose file does not mention concurrency are counted, not judged")
 	run.Assume("requests the client aborted (sibling slice failed) are excluded from overlap and in-flight monitors; rangefail trials use count/value monitors only")
 	code := run.Finish("exploration",
-		"trial = fresh FailoverGroup of the real promapi client (1-2 upstreams, concurrency 1/2/4/16) against observation servers, 2-64 concurrent callers over 1-17 questions of all five endpoint kinds, optional scripted leading failures (HTTP 500 / bad_data), per-request server delays 0-5ms. Monitors: identical requests overlapping in the server log; in-flight sweep vs concurrency; request count per key vs 1+scripted failures; value identity (question, upstream, request ordinal); equality among callers; porcupine history check per (upstream, question); race detector and crash monitor on the child running the trial. Moving trials (appended, own ids): 1-3 multi-slice range questions, every caller with its own logical now laid out inside/across the half-step cells of the question's step grid, arriving sequentially, in waves or as one burst; monitors: a slice question (same start, end in the same cell) answered successfully reaches the server once, newest slice held belongs to the caller's own cell, equal answers among callers of one cell. Non-trivial = trial (by hash of its spec) in which >= 2 callers of one question were waiting while that question's first request was being served (moving trials: >= 2 callers of one question had their now in the same cell).",
+		"trial = fresh FailoverGroup of the real promapi client (1-2 upstreams, concurrency 1/2/4/16) against observation servers, 2-64 concurrent callers over 1-17 questions of all five endpoint kinds, optional scripted leading failures (HTTP 500 / bad_data), per-request server delays 0-5ms. Monitors: identical requests overlapping in the server log; in-flight sweep vs concurrency; request count per key vs 1+scripted failures; value identity (question, upstream, request ordinal); equality among callers; porcupine history check per (upstream, question); race detector and crash monitor on the child running the trial. Moving trials (appended, own ids): 1-3 multi-slice range questions, every caller with its own logical now laid out inside/across the half-step cells of the question's step grid, arriving sequentially, in waves or as one burst; monitors: a slice question (same start, end in the same cell) answered successfully reaches the server once, newest slice held belongs to the caller's own cell, equal answers among callers of one cell. gc trials (appended, own ids): 2-8 questions of all kinds asked in 2-4 waves with 0-3 cache cleanup passes (FailoverGroup.CleanCache) between waves and, in a quarter of them, continuously while callers are out; all per-question monitors apply unchanged plus: an answered key requested again across a cleanup pass (non-trivial: an answered question was asked again after a complete pass). cfg trials (appended, own ids): the group is built by config.Load + PrometheusGenerator from a generated file (static prometheus block, discovery filepath template with one file or two merged files, discovery prometheusQuery template; concurrency 1-12 written in the file or absent; 1-2 upstreams with the first answering 500) and saturated with 15-20 distinct questions held open; in-flight per upstream vs the number in the file (non-trivial: the bound was reached). Non-trivial = trial (by hash of its spec) in which >= 2 callers of one question were waiting while that question's first request was being served (moving trials: >= 2 callers of one question had their now in the same cell).",
 		core.Floors{MinEvaluations: int64(len(trials)), MinNontrivial: len(trials) / 4, MaxInconclusiveFrac: 0.02})
 	if code == core.ExitHeld && !agg.raceMode {
 		fmt.Println("INCONCLUSIVE property=C14: the harness was built without -race, the race monitor did not run")
